@@ -178,6 +178,20 @@ def main(pid, tier, seed):
                     hist = ptq.run_history(pcfg, cuts, with_queue=False)
                     add(pcfg, hist, False, None, dict(m, cuts=cuts))
 
+    # ---- one wide ruleset re-weighted in memory many times: many unrelated heap items + children that tie their parent ----
+    n_rew = 0
+    if pid in ('C01', 'C02'):
+        d = os.path.join(work, 'wide')
+        ptq.wide_ruleset(d)
+        pcfg = ptq.load_pcfg(d)
+        full = None
+        for k in range(500 if tier == 'quick' else 8000):
+            full = ptq.reweight(pcfg, rng, full)
+            hist = ptq.run_history(pcfg, [], with_queue=False)
+            add(pcfg, hist, False, None, {'kind': 'wide ruleset re-weighted in memory', 'base': [[b['replacements'][0], b['prob']] for b in pcfg.base],
+                                          'groups': {t: [g['prob'] for g in gs] for t, gs in pcfg.grammar.items() if gs and t[0] not in 'EW'}})
+            n_rew += 1
+
     # ---- C08 through the real CrackingSession loop, save file and pcfg_guesser.load_save ----
     n_session_hist = 0
     if pid == 'C08':
